@@ -588,7 +588,9 @@ class ReverseWeighting(WeightingModel):
             self.subscorer = subscorer
 
         def supports_block_quality(self):
-            return self.subscorer.supports_block_quality()
+            # The negation of the wrapped scorer's upper bounds are lower
+            # bounds, not upper bounds, of the reversed scores
+            return False
 
         def score(self, matcher):
             return 0 - self.subscorer.score(matcher)
